@@ -918,7 +918,11 @@ PROPS["C08"] = {
                   "hand until a slot-take after the wake serves it), NO LOST RESPONSE; slot_quiescent — when every call has "
                   "returned the ready channel is empty, no slot is left empty, every wake-up has been served and EVERY task all "
                   "of whose requests were resolved has completed. Tied to the code by the slot stream.",
-    "level_note": "Trusted: Lean kernel + standard axioms; the LTS M.Conc, tied to the code by replaying every enumerated interleaving "
+    "level_note": "Trusted: Lean kernel + standard axioms; the LTS M.Slot (tasks abstracted to join_all of one-shot requests; its "
+                  "micro-steps are finer than the code's atomic sections, so it over-approximates the interleavings; the request "
+                  "mutex that makes a poll wait for a parked waker is modelled in the driver's enabledness only, i.e. the theorems "
+                  "cover a superset of the code's behaviours), tied to the code by the slot stream (forced prefixes on real threads, "
+                  "outcome must be reachable); the LTS M.Conc, tied to the code by replaying every enumerated interleaving "
                   "on real threads through the schedule-point hooks (semantic no-ops) and comparing outcomes exactly; sequential "
                   "consistency (the acquire fence of the fix is argued in the commit message, not proved); the schedule controller in "
                   "harness/src/bin/conc.rs; M.Hosts as the sequential specification for the linearizability oracle.",
